@@ -4,6 +4,7 @@
 # a generated manifest with substituted paths, and every check is run.  Reports which checks raise a
 # VIOLATION, compares with the "# expect:" header of the patch, and (with TESTS=1) whether the repository's
 # own test suite still passes with the patch.  /repo itself is never modified.
+#   budget: FZ_RUNS_DIV=n runs 1/n of each quick budget (the tables in DESIGN.md were produced with n=4 — a harder test than the shipped budget)
 #   usage: tools/sensitivity.sh [-s slot] [patch ...]      env: CHECKS="C01 C02" TIER=quick TESTS=1 KEEP=1
 cd "$(dirname "$0")/.." || exit 2
 VERIF=$(pwd)
